@@ -15,8 +15,30 @@ CHECKS = {
          "The crate's own allocator calls go through a shadow heap: exact layout on free, no double free, no access outside live blocks (access notes), refcount == live handles per buffer after every step, no orphan block, empty heap at the end; incl. failing and panicking operations.", "DESIGN.md §6 C03"),
  "C05": ("fault_enumeration", "lsv", "fault injection enumerated over every allocator request of proptest-generated histories (singles; pairs in thorough)",
          "For each generated history every allocator request index is failed in turn (thorough: pairs); oracle: Err/clean panic, target unchanged (or whole-item prefix for iterator-driven calls), other handles untouched, refcounts and heap consistent, nothing leaked.", "DESIGN.md §6 C05"),
+ "C06": ("exploration", "lsv", "exhaustive size grid (powers of two, 56-bit boundary, isize/usize MAX, each +-2 and minus len) x entry points x target states, plus proptest histories with giant sizes and lying size hints; shim refuses giant requests deterministically",
+         "Every grid size through every size-taking entry point (incl. iterator size hints) in 9 storage states, followed by further use of all handles; oracle: documented postcondition on Ok, ReserveError only when a limit is exceeded or the allocator refused, target/other handles/refcounts/heap unchanged after a failure, clean panic text for the panicking forms.", "DESIGN.md §6 C06"),
+ "C07": ("exploration", "lsv", "index grid: all UTF-8 width patterns x storage states x index operations x every byte index, differential against String's panics; plus proptest histories",
+         "Panic parity with String on every byte index 0..=len+2 and usize::MAX for insert/insert_str/remove/truncate (try_ and plain) over all character-width patterns in every storage state, and no effect of a panicking call on target, other handles, allocator and refcounts.", "DESIGN.md §6 C07"),
+ "C08": ("exploration", "lsv", "clone sweep over lengths 0..4 MiB x source states x clone counts with an allocator-request counter, plus clone oracles inside proptest histories",
+         "All clone-like calls are checked for zero allocator requests, pointer identity (heap/static) or equal handle bytes (inline), equality and intact survivors after drops, across lengths, states and clone counts.", "DESIGN.md §6 C08"),
+ "C09": ("exploration", "lsv", "constructor sweep over all width compositions <= 16 bytes and every final byte, through every listed route, with an allocator-request counter; proptest inline-edit histories",
+         "Every listed constructor/conversion on every text shape up to 16 bytes (every final byte value) must not touch the allocator; longer texts must allocate exactly once with capacity == len; inline edit histories staying within 16 bytes must not allocate.", "DESIGN.md §6 C09"),
+ "C10": ("exploration", "lsv", "stateful PBT over handles derived from a pool of leaked 'static texts; pristine-copy comparison after every step; allocator-request counter",
+         "from_static_str/clone/pop/truncate/clear on static handles never allocate and keep pointing at the caller's bytes; any later operation leaves the handle a prefix of the static text or an owned copy equal to the model; the static bytes are compared with pristine copies after every step.", "DESIGN.md §6 C10"),
+ "C11": ("exploration", "lsv", "stateful PBT with capacity-relative argument generation (fill to capacity +-2); invariant capacity >= len on every handle every step; zero-request oracle within capacity",
+         "capacity() >= len() for every handle after every step, with_capacity/reserve postconditions, exclusivity after reserve, the reported capacity physically fits the allocation, and appends/inserts that fit the reported capacity of an exclusively owned string neither allocate nor move.", "DESIGN.md §6 C11"),
+ "C12": ("exploration", "lsv", "growth-event oracle (two-sided bound from the statement) inside proptest histories plus push-one-char loops with request and bytes-moved counters",
+         "Every growth event in generated histories is checked against both bounds of the statement; push loops up to 2^20 (thorough 4*2^20) characters are bounded in allocator requests (logarithmic) and bytes moved (linear).", "DESIGN.md §6 C12"),
  "C13": ("exploration", "lsv", "exhaustive grid capacity x length x min_capacity x sharing plus proptest histories; postcondition oracle taken from the statement",
          "Exhaustive grid over capacities/lengths/min_capacity/sharing situations plus generated histories; checks the statement's bounds and the exact landing size whenever the precondition holds.", "DESIGN.md §6 C13"),
+ "C14": ("exploration", "lsv", "differential vs core Display: exhaustive 8/16-bit (thorough: 32-bit), all power-of-ten/two/extreme boundaries, proptest values uniform per digit count, shadow heap guard zones",
+         "to_lean_string/try_to_lean_string of every integer type against core Display written into a stack buffer; exhaustive where feasible, boundary-complete and densely sampled elsewhere.", "DESIGN.md §6 C14"),
+ "C15": ("exploration", "lsv", "differential vs to_string for bool/char(exhaustive)/strings/LeanStrings/piecewise Display impls; float round-trip by bit pattern (stratified; thorough all 2^32 f32)",
+         "Equality with to_string for every non-float arm incl. the generic fmt::Write arm with multi-piece and failing Display impls (Err(Fmt) exactly when Display fails); floats parse back to identical bits.", "DESIGN.md §6 C15"),
+ "C16": ("exploration", "lsv", "differential vs String::from_utf8/_lossy/from_utf16/_lossy: exhaustive bounded sequences over byte-class and surrogate alphabets plus proptest spliced inputs",
+         "All four decoders agree with std on acceptance and text for every bounded sequence over alphabets covering every UTF-8 byte class / UTF-16 surrogate boundary, and on long spliced inputs crossing the inline limit.", "DESIGN.md §6 C16"),
+ "C17": ("exploration", "lsv", "metamorphic PBT: same text built through 12 different histories (recipes) must compare/hash/format identically and like str; proptest pairs",
+         "Pairs of strings built through different storage histories are compared with every reader (==, cmp, hash, Display/Debug, foreign == in both orders, map lookups by &str, AsRef/Deref) against the same operations on the texts.", "DESIGN.md §6 C17"),
  "C18": ("fault_enumeration", "lsv", "callback-panic position enumeration over proptest-generated histories, String-after-same-panic as oracle, shadow-heap leak accounting",
          "Every callback-taking operation of each generated history is re-run with its callback panicking at invocation k for every k that fires; compared with String after the identical panic, plus isolation, refcount and leak invariants.", "DESIGN.md §6 C18"),
 }
